@@ -31,7 +31,8 @@ class Contract:
                  raises=None, on_raise=(), modifies=(), loops=None,
                  locals=None, returns=None, assumed=False, inline=(),
                  pure=False, name=None, fields=None, ghost=None,
-                 allocates=False, call_ensures=None, call_raises=None):
+                 allocates=False, call_ensures=None, call_raises=None,
+                 covers=()):
         self.func = func
         self.params = params or {}
         self.requires = _lab(requires, "pre")
@@ -52,6 +53,10 @@ class Contract:
         # replacement raise conditions); None = the full contract
         self.call_ensures = call_ensures
         self.call_raises = call_raises
+        # reachability checks (anti-vacuity): each (label, expr) must be
+        # satisfiable at some normal exit ('raise:<Exc>' = that exception
+        # must be reachable)
+        self.covers = _lab(covers, "cover")
 
 
 def literal_value(node):
@@ -504,6 +509,13 @@ class Interp(BuiltinsMixin, StmtMixin, DictMixin):
             st.write("$len", lst.e, z3.IntVal(0), "int")
         return lst
 
+    def ev_Dict(self, node, st, fr):
+        if node.keys:
+            raise Unsupported("non-empty dict literal")
+        obj = self.alloc(st, "dict", None, "dict")
+        st.write("$card", obj.e, z3.IntVal(0), "int")
+        return obj
+
     def ev_JoinedStr(self, node, st, fr):
         # f-strings made only of literal text and plain {expr} of string
         # (or integer) value are exact concatenations ...
@@ -776,6 +788,9 @@ class Interp(BuiltinsMixin, StmtMixin, DictMixin):
                 return VFunc("classof", recv=obj)
             raise Unsupported(f"attribute .{attr} of {obj}")
         if isinstance(obj, VClass):
+            if obj.name in uni.enums and attr in uni.enums[obj.name].members:
+                desc = uni.enums[obj.name]
+                return VEnum(desc, desc.index(attr))
             kind, info, fn = uni.repo.find_attr(obj.name, attr)
             if kind == "method":
                 return VFunc("method", fn=fn, info=info,
@@ -1088,6 +1103,11 @@ class Interp(BuiltinsMixin, StmtMixin, DictMixin):
         raise Unsupported(f"call of {fn}")
 
     def construct(self, cname, args, kwargs, st, fr):
+        hook = getattr(self.uni, "construct_hook", None)
+        if hook is not None:
+            r = hook(self, cname, args, kwargs, st, fr)
+            if r is not None:
+                return r
         if cname in self.uni.free_ctors:
             return VTerm(cname, args, kwargs)
         info = self.uni.repo.cls(cname)
